@@ -536,6 +536,11 @@ pub trait Oracle: Sync {
         _out: &mut Out,
     ) {
     }
+    /// State-changing calls the oracle wants to have happened in every state (e.g. the fee
+    /// endpoint, which fills caches): run at the initial state and after every transition,
+    /// during replays too, so that the probes in `on_state` find a state they do not change
+    /// (verified by the engine's probe-purity self-check).
+    fn settle(&self, _w: &mut World) {}
     /// Called before every transition (also during replays).
     fn before(&self, _w: &mut World, _mon: &mut Self::Mon, _ev: &Ev, _check: bool) {}
     fn on_state(&self, w: &mut World, mon: &mut Self::Mon, hist: &[Ev], out: &mut Out);
@@ -569,13 +574,15 @@ impl<O: Oracle> Model for ChainModel<O> {
     type Ev = Ev;
 
     fn init(&self) -> Self::S {
-        Ctx {
+        let mut c = Ctx {
             w: World::new(self.cfg.clone()),
             last: None,
             mon: O::Mon::default(),
             dead: false,
             threshold_raised_mid_ingestion: false,
-        }
+        };
+        self.oracle.settle(&mut c.w);
+        c
     }
 
     fn enabled(&self, s: &Self::S, hist: &[Ev]) -> Vec<Ev> {
@@ -623,6 +630,7 @@ impl<O: Oracle> Model for ChainModel<O> {
         }
         self.oracle
             .on_transition(&mut s.w, &mut s.mon, ev, &pre, &applied, check, out);
+        self.oracle.settle(&mut s.w);
         s.last = Some(applied);
         true
     }
